@@ -1,6 +1,6 @@
 (* C11 -- Macro invocation equals substitution (table algebra full, substitution partial).  Property theorems only. *)
-From Rimu Require Import Base Regex RegexParse Str Types Tables Guards State Inline Block
-  Frame FrameBlock FrameInst OptionsLemmas MiscLemmas MoreLemmas.
+From Rimu Require Import Base Unicode Regex RegexAnalysis RegexParse Str Types Tables Guards State Inline Block
+  Frame FrameBlock FrameInst OptionsLemmas MiscLemmas MoreLemmas Plain TableFacts.
 
 (* setValue, when not skipped by the safe mode, is exactly the table function setValue_table and touches nothing protected *)
 Theorem C11_setValue_spec : forall name value s,
@@ -39,6 +39,14 @@ Print Assumptions C11_blank_stays_blank.
 Theorem C11_blank_initially : assoc_get $"--" predefined_macros = Some [].
 Proof. exact blank_initially. Qed.
 Print Assumptions C11_blank_initially.
+
+(* text in which no character can start an invocation (no backslash, no opening brace) is returned unchanged
+   by macro expansion, with no diagnostic *)
+Theorem C11_no_brace_identity : forall sr s t silent,
+  (forall x, In x t -> no_macro_start x = true) -> negb (existsb (N.eqb 2) t) = true ->
+  macros_render sr s t silent = iret t.
+Proof. exact macros_render_identity. Qed.
+Print Assumptions C11_no_brace_identity.
 
 Example C11_ex :
   match api_render 40 ($"{m}='$1 and $2:dflt$'" ++ [10] ++ $"{m?}='other'" ++ [10] ++ $"{m|x} {u}") (mkOpts PyNone PyNone PyNone true) S0 with
